@@ -63,6 +63,10 @@ type Scenario struct {
 	// then yields the processor Spin times before it returns, so that the close path advances as
 	// far as it can while the callback is still in progress).
 	CBClose *CBClose `json:"cb_close,omitempty"`
+	// SimLocks: the library's mutexes are the simulation-aware ones in this run, and every statement
+	// of the UDP listeners (server and client) is a yield point at which the scheduler may hold the
+	// goroutine - also while it holds the listeners' lock or runs a packet callback.
+	SimLocks bool `json:"sim_locks,omitempty"`
 }
 
 // CBClose: see Scenario.CBClose.
@@ -152,6 +156,9 @@ func gen(seed uint64, tier string) Scenario {
 				break
 			}
 		}
+	}
+	if x := core.HS(seed, "c13.simlocks", "", 0); x%100 < 30 {
+		sc.SimLocks = true
 	}
 	if x := core.HS(seed, "c13.cbclose", "", 0); x%100 < 30 {
 		sc.CBClose = &CBClose{Kind: []string{"session", "server", "client"}[(x>>8)%3], Seq: 2 + int((x>>16)%12),
@@ -244,7 +251,15 @@ func classify(g *core.G) string {
 }
 
 func run(t *testing.T, sc Scenario) *core.Result {
-	opts := sys.Options{Seed: sc.Seed, Net: sc.Net, Yields: sc.Yields, MaxSteps: 400000, Horizon: 30 * time.Minute, MaxHold: maxHold}
+	opts := sys.Options{Seed: sc.Seed, Net: sc.Net, Yields: sc.Yields, MaxSteps: 400000, Horizon: 30 * time.Minute, MaxHold: maxHold, SimLocks: sc.SimLocks}
+	if sc.SimLocks {
+		opts.Yields = map[string]core.YieldSpec{}
+		for k, v := range sc.Yields {
+			opts.Yields[k] = v
+		}
+		opts.Yields["auto:server_udp_listener:"] = core.YieldSpec{Prob: 0.08}
+		opts.Yields["auto:client_udp_listener:"] = core.YieldSpec{Prob: 0.08}
+	}
 	var summary map[string]any
 	res := sys.Run(t, opts, func(w *sys.World) {
 		w.ProbeInit("server_close_mid_run", "stream_close_mid_run", "client_close_concurrent", "client_close_mid_handshake", "close_inside_packet_callback", "multicast_reader",
@@ -797,6 +812,11 @@ func shrink(sc Scenario) []Scenario {
 	if sc.CBClose != nil {
 		c := clone()
 		c.CBClose = nil
+		out = append(out, c)
+	}
+	if sc.SimLocks {
+		c := clone()
+		c.SimLocks = false
 		out = append(out, c)
 	}
 	if len(sc.Yields) > 0 {
